@@ -181,7 +181,7 @@ class ConH:
         return a <= b + self._s(a, b)
 
     def lt(self, a, b):
-        return a < b + self._s(a, b)
+        return a < b
 
     def and_(self, *cs):
         return all(cs)
